@@ -52,6 +52,10 @@ func GetApparmorLogs(file io.Reader, profile string) []string {
 	for scanner.Scan() {
 		// Decode first: the profile filter has to see a hex-encoded profile name too
 		line := util.DecodeHexInString(scanner.Text())
+		if regRepeatedMsg.MatchString(line) {
+			// rsyslog folds repeats into "message repeated N times: [ msg]"
+			line = strings.TrimSuffix(line, "]")
+		}
 		if isAppArmorLog.MatchString(line) {
 			logs = append(logs, regCleanLogs.Replace(line))
 		}
